@@ -34,9 +34,9 @@ OBLIGATIONS += [
     Ob(name='C16.O6.wq_resume_worker', harness=WQ, entry='h_wq_resume', defines=('LOOPS',), mode='legacy', loop_contracts=True, need_loop_assertions=True, rules=('wq_fork',), unwind=3, min_covers=1, checks=CKL, timeout=300,
        functions=('urcu_workqueue_resume_worker',),
        desc='urcu_workqueue_resume_worker (loop invariant, any number of polls): clears exactly PAUSE, returns only after the worker dropped PAUSED'),
-    Ob(name='C16.O6.wq_create_worker', harness=WQ, entry='h_wq_create_worker', native=True, unwind=3, min_covers=2, checks=CKL, timeout=300, rules=('wq_fork',),
+    Ob(name='C16.O6.wq_create_worker', harness=WQ, entry='h_wq_create_worker', native=True, unwind=3, checks=CKL, timeout=300, rules=('wq_fork',),
        functions=('urcu_workqueue_create_worker',),
-       desc='urcu_workqueue_create_worker in the child, for every inherited flag combination: PAUSE and PAUSED both cleared, one new worker thread on the queue created with signals blocked, queued work kept'),
+       min_covers=3, desc='urcu_workqueue_create_worker in the child, for every inherited flag combination and sleep word (-1 / 0): PAUSE and PAUSED both cleared, sleep word re-initialised, one new worker thread on the queue created with signals blocked, queued work kept'),
     Ob(name='C16.O6.wq_worker_pause', harness=WQ, entry='h_wq_worker_pause', native=True, unwind=5, min_covers=2, checks=CKL, timeout=300, rules=('wq_fork',), tier='B', bound='<= 2 queued work items, PAUSE cleared after 1..3 polls',
        functions=('workqueue_thread',),
        desc='workqueue_thread pause branch: before_pause callback, then PAUSED; no queue/work access while parked; PAUSED dropped only after PAUSE cleared; after_resume; then the queued work runs exactly once'),
